@@ -3156,6 +3156,48 @@ def _rule9(ctx, rep):
         )
 
 
+def _rule10(ctx, rep):
+    """added after seeded change C17-10: the PostgreSQL search dropped the WHERE term of a name constraint whose lookup
+    found no key ("never send an empty array"); a search for an unknown target / task / algorithm / state vector then
+    returned everything the remaining constraints matched instead of nothing"""
+    prog = ctx.prog
+    from . import shared
+
+    with rep.rule(
+        'R-C17-10',
+        'every given name constraint restricts the PostgreSQL query: in __args_n_constraints the WHERE term and its argument are appended for each non-run-id parameter on every path (an unknown name yields an empty key list, which matches nothing)',
+        floor=2,
+        breaks='a search that names something unknown returns the matches of the other constraints (or raises "No constraints") instead of the empty result',
+    ) as r:
+        f = next((g for q, g in sorted(prog.funcs.items()) if q.startswith('dawgie.db.post.search.SearchImplementation.') and q.endswith('args_n_constraints')), None)
+        if f is None:
+            raise AnalysisError('dawgie.db.post.search.SearchImplementation.__args_n_constraints not found')
+        g = prog.nfunc(f.qname)
+        rep.analysed(g)
+        # the two accumulators are what the function returns
+        rets = [n for n in g.own_nodes() if isinstance(n, ast.Return) and isinstance(n.value, ast.Tuple)]
+        accs = [e.id for e in rets[0].value.elts if isinstance(e, ast.Name)] if rets else []
+        if len(accs) != 2:
+            raise AnalysisError(f'{f.qname} no longer returns its two accumulators (args, constraints)')
+        for acc in accs:
+            apps = [c for c in g.calls() if isinstance(c.func, ast.Attribute) and c.func.attr in ('append', 'extend') and isinstance(c.func.value, ast.Name) and c.func.value.id == acc]
+            r.instance()
+            if not apps:
+                r.fail(f'{f.qname}:{acc}:appended', where(g), f'{f.qname} never appends to {acc} for a name constraint (only the run-id helper does)')
+                continue
+            for c in apps:
+                # tests on the loop's own variables select which parameters are given / which one is the run-id list
+                loopvars = {n.id for lp in g.own_nodes() if isinstance(lp, ast.For) and any(x is c for x in ast.walk(lp)) for n in ast.walk(lp.target) if isinstance(n, ast.Name)}
+                extra = [(t, o) for t, o in shared.path_condition(g, c) if not ({n.id for n in ast.walk(t) if isinstance(n, ast.Name)} <= loopvars | {'bool', 'len'})]
+                r.check(
+                    not extra,
+                    f'{f.qname}:{acc}:unconditional',
+                    where(g, c),
+                    f'{norm(c)[:50]} is executed for every name parameter that is given',
+                    f'{norm(c)[:60]} only happens when ' + ' and '.join(('' if o else 'not ') + '(' + norm(t)[:40] + ')' for t, o in extra) + ': a given name constraint can leave the query unrestricted',
+                )
+
+
 def check(ctx):
     rep = Report(
         PID,
@@ -3194,6 +3236,7 @@ def check(ctx):
     _rule7(ctx, rep)
     _rule8(ctx, rep)
     _rule9(ctx, rep)
+    _rule10(ctx, rep)
     return rep
 
 
@@ -3203,6 +3246,9 @@ _AR, _AC = 'SearchImplementation.__add_runids', 'SearchImplementation.__args_n_c
 
 # ``old`` texts that only exist after pending fixes C17-1..4 are skipped automatically on the unrepaired tree
 VARIANTS = [
+    V('post search drops the term of an unknown name', 'B', 'db/post/search.py', 'SearchImplementation.__args_n_constraints', 'args.append(list(row[0] for row in cursor.fetchall())) constraints.append(_CONSTRAINT.format(sql=sql_info))', 'fks = [row[0] for row in cursor.fetchall()]\n                    if fks:\n                        args.append(fks)\n                        constraints.append(_CONSTRAINT.format(sql=sql_info))', 'R-C17-10'),
+    V('post search keeps the keys in a local first', 'N', 'db/post/search.py', 'SearchImplementation.__args_n_constraints', 'args.append(list(row[0] for row in cursor.fetchall())) constraints.append(_CONSTRAINT.format(sql=sql_info))', 'fks = [row[0] for row in cursor.fetchall()]\n                    args.append(fks)\n                    constraints.append(_CONSTRAINT.format(sql=sql_info))', None),
+
     V('shelve search matches names by suffix', 'B', 'db/shelve/search.py', '_subset', 'dissect(t[0])[1] == n', 'dissect(t[0])[1].endswith(n)', 'R-C17-9'),
     V('shelve search memoises its key selection', 'B', 'db/shelve/search.py', None, 'def _subset(', 'import functools\n\n\n@functools.lru_cache(maxsize=64)\ndef _subset(', 'R-C17-8'),
     V('search end point sorts the page as text', 'B', 'fe/api/database.py', 'search', 'return build_return_object(results._asdict())', 'results = results._replace(items=sorted(results.items, key=str.casefold))\n    return build_return_object(results._asdict())', 'R-C17-7'),
